@@ -1,9 +1,13 @@
+"""Activates the simulation agent in every Python process started with harness/agent on PYTHONPATH.
+
+Inert unless VSIM_SOCK is set.  With VSIM_ZYGOTE set (the fork server itself) the agent is installed but
+not activated: each forked child activates it with its own identity.
+"""
 import os
+
 if os.environ.get("VSIM_SOCK") and not os.environ.get("VSIM_NOAGENT"):
     import vsim_agent
+
     vsim_agent.install()
     if not os.environ.get("VSIM_ZYGOTE"):
         vsim_agent.activate()
-if os.environ.get("VSIM_FILELOCK") == "legacy":
-    import filelock._soft as _fs
-    _fs.SoftFileLock._try_break_stale_lock = lambda self: None
